@@ -128,6 +128,27 @@ def sub_seq(ex, st, s, start, length):
     return t
 
 
+def bridge_concat(ex, st, new, parts):
+    """contract option seq_bridge=True: `new` is the concatenation of `parts` (sequence terms; a (\"unit\", v) pair for a
+    single element).  Assume the positional consequences, with triggers on the NEW sequence (valid theorems of sequences
+    that the solvers otherwise have to find by splitting nth(a ++ b, j) themselves)."""
+    if not getattr(getattr(ex, "c", None), "seq_bridge", False) or ex.qstack:
+        return new
+    off = z3.IntVal(0)
+    j = z3.Int(fresh_name("bj"))
+    for p_ in parts:
+        if isinstance(p_, tuple):
+            assume_theorem(st, new[z3.simplify(off)] == p_[1])
+            off = off + 1
+            continue
+        ln = z3.Length(p_)
+        lo = z3.simplify(off)
+        assume_theorem(st, z3.ForAll([j], z3.Implies(z3.And(j >= lo, j < lo + ln), new[j] == p_[z3.simplify(j - lo)]), patterns=[new[j]]))
+        off = off + ln
+    assume_theorem(st, z3.Length(new) == z3.simplify(off))
+    return new
+
+
 def assume_theorem(st, f):
     """assume a fact that holds of every real value (well-formedness of dicts, theorems of sequences), and remember that
     it is one: when a spec function is unfolded such facts are asserted next to the defining equation instead of
@@ -437,6 +458,8 @@ def _list(ex, st, args, kwargs, node):
     if v.is_py and isinstance(v.py, (list, tuple, range)):
         return Val(PYOBJ, None, list(v.py), True) if ops._has_val(v.py) else Val.const(list(v.py))
     t = v.ty
+    if isinstance(t, T.TupleOf):
+        return Val(T.List(t.elem), v.term)  # list(<tuple>): the same elements as a list
     if isinstance(t, T.List):
         return v
     if isinstance(t, T.Set):
@@ -461,8 +484,13 @@ def _tuple(ex, st, args, kwargs, node):
         v = carrier_to_list(ex, st, info, node)
     if v.is_py and isinstance(v.py, (list, tuple)):
         return Val(PYOBJ, None, tuple(v.py), True) if ops._has_val(v.py) else Val.const(tuple(v.py))
+    if isinstance(v.ty, T.TupleOf):
+        return v
     if isinstance(v.ty, T.List):
-        return v  # immutable view of the same sequence
+        want = getattr(ex, "_assign_want", None)
+        if isinstance(want, T.TupleOf) or (isinstance(want, T.Union) and any(isinstance(a, T.TupleOf) for a in want.alts)):
+            return Val(T.TupleOf(v.ty.elem), v.term)  # the receiving local is declared as a variable-length tuple
+        return v  # immutable view of the same sequence (historical typing: List)
     raise Unsupported(f"tuple() of {v.ty}", node)
 
 
@@ -750,6 +778,8 @@ def _isinstance(ex, st, args, kwargs, node):
         m = {T.STR: str, T.INT: int, T.REAL: float, T.BOOL: bool}
         if t in m:
             return any(issubclass(m[t], p) for p in pys)
+        if isinstance(t, T.TupleOf):
+            return any(issubclass(tuple, p) for p in pys)
         if isinstance(t, T.List):
             return any(issubclass(list, p) for p in pys)
         if isinstance(t, T.Tuple):
@@ -1006,16 +1036,19 @@ def mutate(ex, st, recv: Val, name, args, kwargs, node):
         s = lift(recv)
         if name == "append":
             _need(args, 1, node, name)
-            return Val(t, z3.Concat(s, z3.Unit(lift(args[0], t.elem)))), none
+            v_ = lift(args[0], t.elem)
+            return Val(t, bridge_concat(ex, st, z3.Concat(s, z3.Unit(v_)), [s, ("unit", v_)])), none
         if name == "extend":
             _need(args, 1, node, name)
             a = args[0]
             if isinstance(a.ty, T.Set) and not a.is_py:
                 a = set_iteration_order(st, a)
-            return Val(t, z3.Concat(s, lift(a, t))), none
+            a_ = lift(a, t)
+            return Val(t, bridge_concat(ex, st, z3.Concat(s, a_), [s, a_])), none
         if name == "insert":
             if is_const(args[0]) and args[0].py == 0:
-                return Val(t, z3.Concat(z3.Unit(lift(args[1], t.elem)), s)), none
+                v_ = lift(args[1], t.elem)
+                return Val(t, bridge_concat(ex, st, z3.Concat(z3.Unit(v_), s), [("unit", v_), s])), none
             # list.insert clamps the position: i < 0 counts from the end (not below 0), i > len appends
             _need(args, 2, node, name)
             i = lift(args[0], T.INT)
@@ -1024,7 +1057,9 @@ def mutate(ex, st, recv: Val, name, args, kwargs, node):
                 k = i
             else:
                 k = z3.If(i < 0, z3.If(n + i < 0, 0, n + i), z3.If(i > n, n, i))
-            return Val(t, z3.Concat(sub_seq(ex, st, s, 0, k), z3.Unit(lift(args[1], t.elem)), sub_seq(ex, st, s, k, n - k))), none
+            v_ = lift(args[1], t.elem)
+            p1, p2 = sub_seq(ex, st, s, 0, k), sub_seq(ex, st, s, k, n - k)
+            return Val(t, bridge_concat(ex, st, z3.Concat(p1, z3.Unit(v_), p2), [p1, ("unit", v_), p2])), none
         if name == "pop" and not args:
             n = z3.Length(s)
             ex.safety(st, n > 0, "IndexError", node)
